@@ -1,0 +1,105 @@
+//go:build verif
+// +build verif
+
+package keystore
+
+import (
+	"crypto/sha256"
+	"crypto/subtle"
+	"sort"
+)
+
+// This file exists only under the build tag "verif".  It gives the conformance harness in /verif a
+// read-only projection of the secret material a KeystoreManagerForPoC currently holds in memory.
+// It never changes the manager.
+
+// VerifAddrInfo describes one managed address of a keystore.
+type VerifAddrInfo struct {
+	Address string
+	PubKey  []byte
+	Branch  uint32
+	Index   uint32
+	HasPriv bool
+}
+
+// VerifKeystoreState is the projection of one keystore.
+type VerifKeystoreState struct {
+	ID       string
+	Remark   string
+	Unlocked bool
+	// Secrets lists the kinds of usable secret material found in memory (empty for a locked keystore).
+	Secrets []string
+	// Needles holds the bytes of that material (for a clear-text scan of disk and logs).
+	Needles   [][]byte
+	Addresses []VerifAddrInfo
+	NextExt   uint32
+	NextInt   uint32
+}
+
+func verifNonZero(b []byte) bool {
+	for _, x := range b {
+		if x != 0 {
+			return true
+		}
+	}
+	return false
+}
+
+// VerifState returns the projection of every keystore of kmc.
+func VerifState(kmc *KeystoreManagerForPoC) (unlocked bool, out []VerifKeystoreState) {
+	kmc.mu.Lock()
+	defer kmc.mu.Unlock()
+	for id, a := range kmc.managedKeystores {
+		a.mu.Lock()
+		st := VerifKeystoreState{ID: id, Remark: a.remark, Unlocked: a.unlocked,
+			NextExt: a.branchInfo.nextExternalIndex, NextInt: a.branchInfo.nextInternalIndex}
+		if a.masterKeyPriv != nil && a.masterKeyPriv.Key != nil && verifNonZero(a.masterKeyPriv.Key[:]) {
+			d := sha256.Sum256(a.masterKeyPriv.Key[:])
+			// a key derived from a wrong passphrase is not key material of this wallet
+			if subtle.ConstantTimeCompare(d[:], a.masterKeyPriv.Parameters.Digest[:]) == 1 {
+				st.Secrets = append(st.Secrets, "masterKeyPriv")
+				st.Needles = append(st.Needles, append([]byte{}, a.masterKeyPriv.Key[:]...))
+			}
+		}
+		if a.cryptoKeyPriv != nil && verifNonZero(a.cryptoKeyPriv.Bytes()) {
+			if _, err := a.cryptoKeyPriv.Decrypt(a.acctInfo.acctKeyEncrypted); err == nil {
+				st.Secrets = append(st.Secrets, "cryptoKeyPriv")
+				st.Needles = append(st.Needles, append([]byte{}, a.cryptoKeyPriv.Bytes()...))
+			}
+		}
+		if verifNonZero(a.hashedPrivPassphrase[:]) {
+			st.Secrets = append(st.Secrets, "hashedPrivPassphrase")
+		}
+		if a.acctInfo.acctKeyPriv != nil {
+			st.Secrets = append(st.Secrets, "acctKeyPriv")
+			st.Needles = append(st.Needles, []byte(a.acctInfo.acctKeyPriv.String()))
+		}
+		if a.branchInfo.externalBranchPriv != nil || a.branchInfo.internalBranchPriv != nil {
+			st.Secrets = append(st.Secrets, "branchPriv")
+		}
+		anyPriv := false
+		for addr, m := range a.addrs {
+			info := VerifAddrInfo{Address: addr, PubKey: m.pubKey.SerializeCompressed(),
+				Branch: m.derivationPath.Branch, Index: m.derivationPath.Index}
+			if m.privKey != nil && m.privKey.D != nil && m.privKey.D.Sign() != 0 {
+				info.HasPriv = true
+				anyPriv = true
+				st.Needles = append(st.Needles, m.privKey.Serialize())
+			}
+			st.Addresses = append(st.Addresses, info)
+		}
+		if anyPriv {
+			st.Secrets = append(st.Secrets, "addrPriv")
+		}
+		sort.Slice(st.Addresses, func(i, j int) bool {
+			if st.Addresses[i].Branch != st.Addresses[j].Branch {
+				return st.Addresses[i].Branch < st.Addresses[j].Branch
+			}
+			return st.Addresses[i].Index < st.Addresses[j].Index
+		})
+		a.mu.Unlock()
+		out = append(out, st)
+	}
+	sort.Slice(out, func(i, j int) bool { return out[i].ID < out[j].ID })
+	return kmc.unlocked, out
+}
